@@ -10,7 +10,7 @@ MODEL_IS_SPEC = False
 RULE = ("random histories (10-40 operations) over up to 4 environments (plain, subclass with its own limits, with extra registered functions) and the module-level functions: "
         "create environment, register a function, compile, apply a compiled query, find via environment, find via module, mutate a document in place between applications; every document is deep-copied before each operation "
         "and compared afterwards (type-strict, plus identity of every container); every result is compared with the history model; earlier compiled queries are re-applied after later "
-        "operations; non-trivial = history contains a registration or a subclass and at least one non-empty result; distinct = distinct histories")
+        "operations; a run of match()/search() queries on one environment with patterns the engine accepts and patterns check() accepts but the engine rejects, each result compared with a fresh environment; non-trivial = history contains a registration or a subclass and at least one non-empty result; distinct = distinct histories")
 TRUSTED_BASE = [
     "Coq 8.16.1 kernel; theorems closed under the global context",
     "tools/pygen/gen_effects.py: inventory of every attribute/item store, mutator call, global statement and decorator in the package, regenerated on every run; "
@@ -25,6 +25,8 @@ LEVEL_TEXT = ("C14_effects (regenerated obligation), C14_repeatable, C14_env_iso
               "shared state; the assurance that the code has none comes from the regenerated effect obligation and from the histories run against the real library.")
 LEVEL_NOTE = "Trusted: Coq kernel; the effect scanner and the policy; correspondence; extraction and driver. The regex cache is not modelled."
 norm_reply = harness.norm_reply
+RX_GOOD = ['a.*', 'a', '.b', '[ab]+', 'a+b', 'b|zz', '.', 'a{1,2}b']
+RX_ODD = ['a{2,1}', '[z-a]', 'a{3,2}b', 'a{2,1}|b', '[b-a]x']     # check() accepts them, the regex engine does not
 
 
 def ids(v, acc):
@@ -173,6 +175,27 @@ def cases(ctx, budget):
                     else: doc["tag"] = "b" if doc["tag"] == "a" else "a"
             except Exception:
                 pass
+        # regex function calls on one environment: each call's result must not depend on the patterns seen before it (a pattern check()
+        # accepts may still be rejected by the engine; it then matches nothing, whatever was compiled before)
+        if envs and rng.random() < 0.7:
+            e = rng.randrange(len(envs))
+            import jsonpath_rfc9535 as _jp
+            strs = [rng.choice(["ab", "aab", "b", "abc", "ba", "", "zz", "a", "bab"]) for _ in range(rng.randint(3, 6))]
+            sdoc = rng.choice([strs, {"k%d" % i: x for i, x in enumerate(strs)}, [{"s": x, "p": rng.choice(RX_GOOD + RX_ODD)} for x in strs]])
+            for rnd in range(rng.randint(3, 6)):
+                fn = rng.choice(["match", "search"])
+                pat = rng.choice(RX_ODD) if rnd and rng.random() < 0.45 else rng.choice(RX_GOOD)
+                if isinstance(sdoc, list) and sdoc and isinstance(sdoc[0], dict):
+                    text = rng.choice(["$[?%s(@.s, '%s')]" % (fn, pat), "$[?%s(@.s, @.p)]" % fn, "$[?!%s(@.s, '%s')].s" % (fn, pat)])
+                else:
+                    text = rng.choice(["$[?%s(@, '%s')]" % (fn, pat), "$[?!%s(@, '%s')]" % (fn, pat), "$..[?%s(@, '%s')]" % (fn, pat)])
+                before = copy.deepcopy(sdoc)
+                try: o = [1] + harness.enc_nodes(envs[e].find(text, sdoc))
+                except Exception as ex: o = [1] + wire.enc_exception(ex)[:2] + ([0] if wire.enc_exception(ex)[0] == 1 else [])
+                log.append("regex find env%d %r -> %r" % (e, text, o[:3]))
+                if wire.enc_json(before) != wire.enc_json(sdoc): problems.append("regex find modified its argument")
+                if not any(x[0] in ("match", "search") for x in regs[e]) and o != fresh_result(_jp.JSONPathEnvironment, text, before):
+                    problems.append("%r on %r after earlier regex calls on the same environment gives a different result than on a fresh environment" % (text, before))
         req = [12, 0, len(ops)]
         for o in ops: req += o
         out = [len(outs)]
